@@ -304,6 +304,7 @@ pub proof fn lemma_ext_trans(a: Seq<SessionFrame>, b: Seq<SessionFrame>, c: Seq<
 }
 
 //@@ fn file=fe2o3-amqp/src/session/engine.rs name=send_outgoing_item
+//@@ shape loops=for
 //@@ param outgoing : &mut ChanSender<SessionFrame>
 //@@ param conn_stop : &OnceCell<ConnectionStopReason>
 //@@ subst `|_v0|` => `|_v0: ChanSendError|` rule=optional-R5
@@ -354,6 +355,7 @@ impl SessionEngine {
 //@@ end
 
 //@@ fn file=fe2o3-amqp/src/session/engine.rs impl=`~impl<S>SessionEngine<S>whereS:endpoint::SessionEndpoint<State=SessionState>+SendBound+Sync+'static,` name=on_incoming
+//@@ shape loops=for,whilelet
 //@@ attr #[verifier::loop_isolation(false)]
 //@@ subst `result?;` => `match result { Ok(v) => v, Err(e) => return Err(state_err_into(e)) };` rule=optional-R24
 //@@ subst `&self.outgoing` => `&mut self.outgoing` rule=R9
@@ -406,6 +408,7 @@ impl SessionEngine {
 //@@ end
 
 //@@ fn file=fe2o3-amqp/src/session/engine.rs impl=`~impl<S>SessionEngine<S>whereS:endpoint::SessionEndpoint<State=SessionState>+SendBound+Sync+'static,` name=wait_for_remote_end
+//@@ shape loops=loop
 //@@ qmark
 //@@ attr #[verifier::exec_allows_no_decreases_clause]
 //@@ subst `.ok_or(SessionInnerError::ConnectionStopped( connection_stop_reason_or_closed(self.session.connection_stop_reason()), ))` => `.ok_or(SessionInnerError::ConnectionStopped(connection_stop_reason_or_closed(self.session.connection_stop_reason())))` rule=optional
@@ -482,6 +485,7 @@ impl SessionEngine {
 //@@ end
 
 //@@ fn file=fe2o3-amqp/src/session/engine.rs impl=`~impl<S>SessionEngine<S>whereS:endpoint::SessionEndpoint<State=SessionState>+SendBound+Sync+'static,` name=on_control
+//@@ shape loops=whilelet
 //@@ qmark
 //@@ attr #[verifier::loop_isolation(false)]
 //@@ subst `&self.outgoing` => `&mut self.outgoing` rule=R9
